@@ -357,7 +357,7 @@ theorem ntriggerEvent_sim (x : Ctx) (ev : Nat) (s : NSt) :
       refine ⟨seg1 ++ seg2, by rw [l2, l1]; simp, fun rest => ?_⟩
       have e1 := a1 (seg2 ++ rest)
       simp only [NSt.abs] at e1
-      simp only [aTriggerEvent, NSt.abs, List.append_assoc, e1]
+      simp only [aTriggerEvent, aHandled, NSt.abs, List.append_assoc, e1]
       have e2 := a2 rest
       simp only [NSt.abs] at e2
       simp only [e2]
@@ -377,7 +377,7 @@ theorem ntriggerEvent_sim (x : Ctx) (ev : Nat) (s : NSt) :
         refine ⟨seg1 ++ seg2, by rw [l2, l1]; simp, fun rest => ?_⟩
         have e1 := a1 (seg2 ++ rest)
         simp only [NSt.abs] at e1
-        simp only [aTriggerEvent, NSt.abs, List.append_assoc, e1, hex]
+        simp only [aTriggerEvent, aHandled, NSt.abs, List.append_assoc, e1, hex]
         have e2 := a2 rest
         simp only [NSt.abs] at e2
         simp only [e2]
@@ -403,7 +403,7 @@ theorem ntriggerEvent_sim (x : Ctx) (ev : Nat) (s : NSt) :
           simp only [NSt.abs] at e2
           have e3 := a3 rest
           simp only [NSt.abs] at e3
-          simp only [aTriggerEvent, NSt.abs, List.append_assoc] at e1 e2 ⊢
+          simp only [aTriggerEvent, aHandled, NSt.abs, List.append_assoc] at e1 e2 ⊢
           simp only [e1, hex, e2, e3]
       | err e2 s2 =>
         rw [hcb] at hh
@@ -422,7 +422,7 @@ theorem ntriggerEvent_sim (x : Ctx) (ev : Nat) (s : NSt) :
           simp only [NSt.abs] at e2'
           have e3 := a3 rest
           simp only [NSt.abs] at e3
-          simp only [aTriggerEvent, NSt.abs, List.append_assoc] at e1 e2' ⊢
+          simp only [aTriggerEvent, aHandled, NSt.abs, List.append_assoc] at e1 e2' ⊢
           simp only [e1, hex, e2', e3]
 
 theorem ndrain_sim : ∀ (n : Nat) (s : NSt), Sim (ndrain sub sc cfg n s) s (aDrain inner cfg n)
@@ -690,10 +690,11 @@ theorem aHistory_nil (cfg : NCfg) (qmax fuel n : Nat) (a : ASt) (k : Nat) :
 /-- a whole history of trigger calls: the trace is accepted, call by call -/
 theorem nrunHistory_sim (sc : Script) (cfg : NCfg) (qmax fuel : Nat) : ∀ (h : List Nat) (s s' : NSt),
     nrunHistory sc cfg qmax fuel h s = some s' →
-    ∃ tr, s'.log = s.log ++ tr ∧ ∀ n k, h.length ≤ n → aHistory cfg qmax fuel n s.abs tr k = (k + h.length, true, s'.abs)
+    ∃ tr, s'.log = s.log ++ tr ∧ h.length ≤ tr.length ∧
+      ∀ n k, h.length ≤ n → aHistory cfg qmax fuel n s.abs tr k = (k + h.length, true, s'.abs)
   | [], s, s', h => by
     simp only [nrunHistory, Option.some.injEq] at h; subst h
-    exact ⟨[], by simp, fun n k _ => by simp [aHistory_nil]⟩
+    exact ⟨[], by simp, by simp, fun n k _ => by simp [aHistory_nil]⟩
   | ev :: evs, s, s', h => by
     cases fuel with
     | zero => simp [nrunHistory, nrunCmd] at h
@@ -707,10 +708,10 @@ theorem nrunHistory_sim (sc : Script) (cfg : NCfg) (qmax fuel : Nat) : ∀ (h : 
         rw [hc] at h1
         obtain ⟨seg, l1, a1⟩ := h1
         simp only [hc, Res.map] at h
-        obtain ⟨tr, l2, a2⟩ := nrunHistory_sim sc cfg qmax (f + 1) evs s1 s' h
+        obtain ⟨tr, l2, hlen, a2⟩ := nrunHistory_sim sc cfg qmax (f + 1) evs s1 s' h
         obtain ⟨kd, t, m, ev', tl, hseg⟩ : StartsApi seg := by
           have := aApi_starts (a1 []); simpa using this
-        refine ⟨seg ++ tr, by rw [l2, l1, List.append_assoc], fun n k hn => ?_⟩
+        refine ⟨seg ++ tr, by rw [l2, l1, List.append_assoc], by subst hseg; simp; omega, fun n k hn => ?_⟩
         cases n with
         | zero => simp at hn
         | succ n =>
@@ -725,10 +726,10 @@ theorem nrunHistory_sim (sc : Script) (cfg : NCfg) (qmax fuel : Nat) : ∀ (h : 
         rw [hc] at h1
         obtain ⟨seg, l1, a1⟩ := h1
         simp only [hc, Res.map] at h
-        obtain ⟨tr, l2, a2⟩ := nrunHistory_sim sc cfg qmax (f + 1) evs s1 s' h
+        obtain ⟨tr, l2, hlen, a2⟩ := nrunHistory_sim sc cfg qmax (f + 1) evs s1 s' h
         obtain ⟨kd, t, m, ev', tl, hseg⟩ : StartsApi seg := by
           have := aApi_starts (a1 []); simpa using this
-        refine ⟨seg ++ tr, by rw [l2, l1, List.append_assoc], fun n k hn => ?_⟩
+        refine ⟨seg ++ tr, by rw [l2, l1, List.append_assoc], by subst hseg; simp; omega, fun n k hn => ?_⟩
         cases n with
         | zero => simp at hn
         | succ n =>
